@@ -104,6 +104,26 @@ def generate(rng, tier, focus):
             subs.append(sub(2, ["hot", 0]))
         acts = pre + subs + mid + [["emit", 0, term]] + post
         cases.append((scn(subjects=[kind], handles=3, script_=acts), {"k": "sub-in-terminal", "how": how, "term": term}))
+    # a newcomer that subscribes from inside a callback of another subscriber:
+    #  (a) plain Subject, inside the TERMINAL callback: the subject is re-usable, the newcomer receives whatever is pushed afterwards;
+    #  (b) ReplaySubject, inside the j-th NEXT callback: the newcomer is handed the whole history INCLUDING the item being delivered,
+    #      once, and then the live stream
+    for _ in range(1600 if thorough else 260):
+        if rng.random() < 0.5:
+            m = rng.randrange(0, 3)
+            term = rng.choice([C, e(3)])
+            post = [rng.choice([n(5), n(6)]) for _ in range(rng.randrange(1, 4))] + rng.choice([[], [C], [e(4)]])
+            subs = [sub(0, ["hot", 0], (m, ["sub", 1, ["hot", 0]]))] + ([sub(2, ["hot", 0])] if rng.random() < 0.4 else [])
+            rng.shuffle(subs)
+            acts = subs + [["emit", 0, n(rng.choice([1, 2, 3]))] for _ in range(m)] + [["emit", 0, term]] + [["emit", 0, x] for x in post]
+            cases.append((scn(subjects=[["subject"]], handles=3, script_=acts), {"k": "newcomer-in-callback", "want1": [sx.dumps(x) for x in post]}))
+        else:
+            items = [n(rng.choice([1, 2, 3])) for _ in range(rng.randrange(1, 5))]
+            j = rng.randrange(0, len(items))
+            pre = rng.randrange(0, j + 1)           # subscriber 0 arrives after `pre` items (it is replayed those first)
+            term = rng.choice([[], [C], [e(3)]])
+            acts = [["emit", 0, x] for x in items[:pre]] + [sub(0, ["hot", 0], (j, ["sub", 1, ["hot", 0]]))] + [["emit", 0, x] for x in items[pre:]] + [["emit", 0, x] for x in term]
+            cases.append((scn(subjects=[["replay"]], handles=3, script_=acts), {"k": "newcomer-in-callback", "want1": [sx.dumps(x) for x in items + term]}))
     # feedback from INSIDE the terminal notification: every subscriber reacts to its terminal callback by pushing into the same subject
     # (next / error / complete): whoever was subscribed when the subject terminated gets exactly that terminal, and nothing that is
     # pushed while the notification is still going round (all subscribers react alike: the visiting order is unspecified)
@@ -150,6 +170,10 @@ def judge_impl(cases, obs):
             if int(counts[0]) != alive:
                 out.append((i, "the subject holds %s observer(s) after the last action, but %d subscription(s) are still alive (flags %s): an observer that ended during the hand-over was kept" % (
                     counts[0], alive, " ".join(str(f) for f in flags))))
+        if info.get("k") == "newcomer-in-callback" and ob["out"] == "ok":
+            got = [sx.dumps(x[2]) for x in ob["log"] if x[0] == "t1"]
+            if got != info["want1"]:
+                out.append((i, "the subscriber made from inside another subscriber's callback received %s, expected %s (Subject: everything pushed after it joined; ReplaySubject: the whole history, the item being delivered included, once)" % (" ".join(got), " ".join(info["want1"]))))
         if info.get("k") == "emit-in-terminal" and ob["out"] == "ok":
             for u in range(info["nsub"]):
                 got = [sx.dumps(x[2]) for x in ob["log"] if x[0] == "t%d" % u]
